@@ -76,7 +76,16 @@ def run_history(h, on_violation, on_step=None):
         blame = None
         new = None
         if op[0] == "new":
-            lv = Live(hist.build_root(op[2]), op[1], op[2], [])
+            try:
+                lv = Live(hist.build_root(op[2]), op[1], op[2], [])
+            except Exception as e:
+                # not an immutability question; keep indices stable with a placeholder that no rule can change
+                if on_step:
+                    on_step("root", "raised:" + type(e).__name__, False, type(e).__name__)
+                lv = Live(None, "dead", op[2], [])
+                lv.expected, lv.expected_full = {}, None
+                live.append(lv)
+                continue
             live.append(lv)
             new = lv
             blame = ("new", op[1], "-")
@@ -85,6 +94,11 @@ def run_history(h, on_violation, on_step=None):
                 continue
             recv = live[op[1]]
             st_ = op[2]
+            if recv.family == "dead":
+                lv = Live(None, "dead", op[2], [])
+                lv.expected, lv.expected_full = {}, None
+                live.append(lv)
+                continue
             cname = defining_class(recv.obj, st_[0])
             blame = ("call", cname, st_[0])
             fam = recv.family
@@ -103,6 +117,8 @@ def run_history(h, on_violation, on_step=None):
                 live.append(lv)
                 new = lv
         for lv in live:
+            if lv.family == "dead":
+                continue
             now = snap.render_snapshot(lv.obj, contexts=light_ctx(lv))
             if lv.expected is None:
                 lv.expected, lv.expected_full = twin_snapshots(lv)
